@@ -136,6 +136,9 @@ func restoreBytes(r *Rig, p string) ([]byte, error) {
 
 // fetchBytes reads the record at (record, block) through recovery.Fetch.
 func fetchBytes(r *Rig, record, block int64) ([]byte, error) {
+	// the harness uses the backend directly here, outside the Operations lock: wait until a restore goroutine that is
+	// still closing its reader (File.Read returns before it is done) has released the drive, or we would share its reader
+	r.LocksSettled()
 	rd, err := r.BE.GetReader()
 	if err != nil {
 		return nil, err
@@ -283,7 +286,7 @@ func c03Run(prop, tier string, c Case, w *Worker) (res Result) {
 	defer rig.Close()
 	if err := rig.Init(); err != nil {
 		if expectUnsupported(cfg) && isUnsupportedErr(err) {
-			if held := rig.LocksHeld(); len(held) > 0 {
+			if held := rig.LocksSettled(); len(held) > 0 {
 				res.violate("c03|locks", fmt.Sprintf("[%s] locks held after rejected Initialize: %v", cfg, held))
 				return
 			}
@@ -368,7 +371,7 @@ func c03Run(prop, tier string, c Case, w *Worker) (res Result) {
 			return
 		}
 	}
-	if held := rig.LocksHeld(); len(held) > 0 {
+	if held := rig.LocksSettled(); len(held) > 0 {
 		fail("locks", "locks still held after Archive: %v", held)
 		return
 	}
@@ -392,7 +395,7 @@ func c03Run(prop, tier string, c Case, w *Worker) (res Result) {
 		// A regular file cannot be read back in tape mode (no st driver here) and reading tape-mode output in regular mode is not a
 		// configuration stfs supports; so the tape-mode writer is judged by an independent scan of what it wrote, decoded with the
 		// standard decoders: every content record must decode to the bytes that were written.
-		if held := rig.LocksHeld(); len(held) > 0 {
+		if held := rig.LocksSettled(); len(held) > 0 {
 			fail("locks", "locks still held after tape-mode writes: %v", held)
 			return
 		}
@@ -508,7 +511,7 @@ func c03Run(prop, tier string, c Case, w *Worker) (res Result) {
 				return false
 			}
 			res.count("reads_fetch", 1)
-			if held := rg.LocksHeld(); len(held) > 0 {
+			if held := rg.LocksSettled(); len(held) > 0 {
 				fail("locks", "%s: locks still held after reading %s: %v", phase, it.path, held)
 				return false
 			}
